@@ -494,3 +494,91 @@ pub fn views(seed: u64, n: usize, out: &mut Out) {
     }
     out.w.flush().unwrap();
 }
+
+/// C16 (pure functions): transfer-fee excluded / included conversions through the Anchor functions and
+/// the Pinocchio copies (hand-written TLV parser), on mints whose fee extension sits at different
+/// positions among other extensions, for both epoch schedules.
+pub fn tfee(seed: u64, n: usize, out: &mut Out) {
+    use anchor_lang::prelude::{AccountInfo, InterfaceAccount};
+    use whirlpool::pinocchio::verif_export::ported::util_token::{pino_calculate_transfer_fee_excluded_amount, pino_calculate_transfer_fee_included_amount};
+    use whirlpool::util::{calculate_transfer_fee_excluded_amount, calculate_transfer_fee_included_amount};
+    quiet_panics();
+    crate::svm::init();
+    let mut r = ChaCha8Rng::seed_from_u64(seed);
+    for _ in 0..n {
+        // ---- a token-2022 mint with a transfer fee config (and other extensions before / after it)
+        let bps_set = [0u16, 1, 2, 30, 100, 250, 2500, 5000, 9999, 10000];
+        let max_set = [0u64, 1, 2, 1000, 5_000_000, u64::MAX - 1, u64::MAX];
+        let older = (r.gen_range(0..20u64), max_set[r.gen_range(0..max_set.len())], bps_set[r.gen_range(0..bps_set.len())]);
+        let newer = (r.gen_range(0..20u64), if r.gen_bool(0.5) { max_set[r.gen_range(0..max_set.len())] } else { log_u128(&mut r, 64) as u64 }, if r.gen_bool(0.6) { bps_set[r.gen_range(0..bps_set.len())] } else { r.gen_range(0..=10000) });
+        let epoch = r.gen_range(0..22u64);
+        crate::svm::set_epoch(epoch);
+        let mut data = vec![0u8; 82];
+        data[0..4].copy_from_slice(&1u32.to_le_bytes());
+        data[45] = 1; // is_initialized
+        data[44] = 6;
+        data.resize(165, 0);
+        data.push(1); // account type: mint
+        let tlv = |t: u16, body: Vec<u8>| -> Vec<u8> {
+            let mut v = t.to_le_bytes().to_vec();
+            v.extend_from_slice(&(body.len() as u16).to_le_bytes());
+            v.extend(body);
+            v
+        };
+        let mut fee_body = vec![0u8; 64];
+        fee_body.extend_from_slice(&0u64.to_le_bytes());
+        for c in [older, newer] {
+            fee_body.extend_from_slice(&c.0.to_le_bytes());
+            fee_body.extend_from_slice(&c.1.to_le_bytes());
+            fee_body.extend_from_slice(&c.2.to_le_bytes());
+        }
+        let before = r.gen_range(0..3);
+        for _ in 0..before {
+            // metadata pointer (18) / interest bearing (10) style bodies of arbitrary content
+            let t = [18u16, 10, 14][r.gen_range(0..3)];
+            let len = match t { 18 => 64, 10 => 52, _ => 64 };
+            data.extend(tlv(t, (0..len).map(|_| r.gen()).collect()));
+        }
+        data.extend(tlv(1, fee_body));
+        for _ in 0..r.gen_range(0..2) {
+            data.extend(tlv(18, (0..64).map(|_| r.gen()).collect()));
+        }
+        let sel = if epoch >= newer.0 { newer } else { older };
+        // amounts: boundary set incl. around maxFee * 10^4 / bps
+        let mut amounts: Vec<u64> = vec![0, 1, 2, 9999, 10000, 10001, u64::MAX, u64::MAX - 1, rand_amount(&mut r), rand_amount(&mut r)];
+        if sel.2 > 0 {
+            let knee = ((sel.1 as u128) * 10000 / sel.2 as u128).min(u64::MAX as u128) as u64;
+            for d in [0u64, 1, 2, 10000] {
+                amounts.push(knee.saturating_sub(d));
+                amounts.push(knee.saturating_add(d));
+            }
+        }
+        let key = anchor_lang::prelude::Pubkey::new_from_array(r.gen());
+        let owner = spl_token_2022::ID;
+        for x in amounts {
+            // Anchor
+            let mut lam = 1_000_000u64;
+            let mut d = data.clone();
+            let info = AccountInfo::new(&key, false, false, &mut lam, &mut d, &owner, false, 0);
+            let enc = |ok: bool, a: u64, f: u64| json!({"ok": ok, "amount": nu(a as u128), "fee": nu(f as u128)});
+            let (ea, ia) = match InterfaceAccount::<anchor_spl::token_interface::Mint>::try_from(&info) {
+                Ok(m) => {
+                    let e = std::panic::catch_unwind(std::panic::AssertUnwindSafe(|| calculate_transfer_fee_excluded_amount(&m, x)));
+                    let i = std::panic::catch_unwind(std::panic::AssertUnwindSafe(|| calculate_transfer_fee_included_amount(&m, x)));
+                    (match e { Ok(Ok(v)) => enc(true, v.amount, v.transfer_fee), _ => enc(false, 0, 0) }, match i { Ok(Ok(v)) => enc(true, v.amount, v.transfer_fee), _ => enc(false, 0, 0) })
+                }
+                Err(_) => (enc(false, 0, 0), enc(false, 0, 0)),
+            };
+            // Pinocchio: the mint in a loader-format input buffer
+            let mut bank = crate::svm::Bank::default();
+            bank.accts.insert(key, crate::svm::Acct { lamports: 1_000_000, data: data.clone(), owner, executable: false });
+            let (ep, ip) = bank.with_pino_accounts(&[key], |accts| {
+                let e = std::panic::catch_unwind(std::panic::AssertUnwindSafe(|| pino_calculate_transfer_fee_excluded_amount(&accts[0], x)));
+                let i = std::panic::catch_unwind(std::panic::AssertUnwindSafe(|| pino_calculate_transfer_fee_included_amount(&accts[0], x)));
+                (match e { Ok(Ok(v)) => enc(true, v.amount, v.transfer_fee), _ => enc(false, 0, 0) }, match i { Ok(Ok(v)) => enc(true, v.amount, v.transfer_fee), _ => enc(false, 0, 0) })
+            });
+            out.emit(json!({"k": "tfee", "bps": sel.2, "maxFee": nu(sel.1 as u128), "x": nu(x as u128), "exclA": ea, "inclA": ia, "exclP": ep, "inclP": ip, "extsBefore": before}), true, format!("tf:{}:{}", sel.2 == 10000, sel.2 == 0));
+        }
+    }
+    out.w.flush().unwrap();
+}
